@@ -541,3 +541,340 @@ Proof.
   - intros x Hx. rewrite Howed'. exact (AS _ Hx).
   - intros x q Hx. rewrite Howed'. exact (AC _ _ Hx).
 Qed.
+
+Lemma keys_app_in {A} (l1 l2 : list (N * A)) x : In x (keys (l1 ++ l2)) <-> In x (keys l1) \/ In x (keys l2).
+Proof. rewrite keys_app. apply in_app_iff. Qed.
+
+Lemma nodup_keys_snoc {A} (l : list (N * A)) c v : NoDup (keys l) -> ~ In c (keys l) -> NoDup (keys (l ++ [(c, v)])).
+Proof.
+  intros Hn Hc. rewrite keys_app. cbn [keys map fst].
+  apply (Permutation.Permutation_NoDup (l := c :: keys l)).
+  - apply Permutation.Permutation_cons_append.
+  - constructor; assumption.
+Qed.
+
+Lemma lookup_snoc_some {A} (l : list (N * A)) c v x y : lookup x l = Some y -> lookup x (l ++ [(c, v)]) = Some y.
+Proof. intros H. rewrite lookup_app_last, H. reflexivity. Qed.
+
+(* an outbound attempt c of peer p concludes with an accepted connection: it moves from the
+   transport's obligations into the accept futures *)
+Lemma linv_conclude_acc m g c p st' (b : bool) m' :
+  LInv m g -> lookup c (pending m) = Some p ->
+  pending m' = remove_key c (pending m) ->
+  (forall q, state_of m' q = if q =? p then st' else state_of m q) -> dial_record st' = None ->
+  accepting m' = accepting m ++ [(c, (p, b))] -> next_conn m' = next_conn m ->
+  LInv m' (mkG (removes [c] (g_open g)) (removes [c] (g_neg g)) (g_att g) (g_done g) (g_super g)
+               (g_limrej g) (g_inb g) (g_rep g)).
+Proof.
+  intros [P O R ON F INB D DN AN AS AC SU] Hl Hp Hs Hst Ha Hn.
+  destruct (P _ _ Hl) as (Hoc & Hatc & Hdc & Hiffc).
+  assert (Howed' : forall x, owed (mkG (removes [c] (g_open g)) (removes [c] (g_neg g)) (g_att g)
+               (g_done g) (g_super g) (g_limrej g) (g_inb g) (g_rep g)) x <-> owed g x /\ x <> c).
+  { intros x. unfold owed. cbn [g_open g_neg]. rewrite !in_removes1. tauto. }
+  assert (Hother : forall x q, x <> c -> lookup x (pending m) = Some q -> q <> p).
+  { intros x q Hne Hx ->. destruct (P _ _ Hx) as (_ & _ & Hdx & _). congruence. }
+  assert (Hcacc : ~ In c (keys (accepting m))) by (intros Hin; exact (AS _ Hin Hoc)).
+  assert (Hkacc : forall x, In x (keys (accepting m')) <-> In x (keys (accepting m)) \/ x = c).
+  { intros x. rewrite Ha, keys_app_in. cbn [keys map fst In]. intuition. }
+  split; cbn [g_att g_done g_super g_limrej g_inb g_rep]; rewrite ?Hp, ?Hn.
+  - intros x q Hx. rewrite lookup_remove_key in Hx. destruct (x =? c) eqn:E; [discriminate|].
+    assert (Hne : x <> c) by lia. destruct (P _ _ Hx) as (Ho & Hat & Hd & Hiff).
+    rewrite Howed', Hs. assert (q =? p = false) as -> by (pose proof (Hother _ _ Hne Hx); lia).
+    repeat split; auto.
+    + cbn [g_open]. rewrite in_removes1. intros [Hin _]. now apply Hiff.
+    + intros Hop. cbn [g_open]. rewrite in_removes1. split; [now apply Hiff | assumption].
+  - intros x Hx. apply Howed' in Hx. destruct Hx as [Hx Hne]. destruct (O _ Hx) as [q Hq].
+    exists q. rewrite lookup_remove_key. assert (x =? c = false) as -> by lia. exact Hq.
+  - intros q x Hd. rewrite Hs in Hd. destruct (q =? p) eqn:E; [congruence|].
+    specialize (R _ _ Hd). rewrite lookup_remove_key. destruct (x =? c) eqn:E2; [|exact R].
+    assert (x = c) by lia. subst x. rewrite Hl in R. injection R as ->. lia.
+  - cbn [g_open g_neg]. intros x Hx. rewrite in_removes1 in *. intros [Hn2 _]. destruct Hx as [Hx _].
+    exact (ON _ Hx Hn2).
+  - intros x Hx. rewrite Howed', Hkacc in Hx.
+    assert (Hc : c < next_conn m) by (apply F; now left).
+    assert (Hx' : x = c \/ (owed g x \/ In x (keys (g_att g)) \/ In x (g_inb g) \/ In x (g_done g) \/
+                             In x (keys (accepting m)) \/ In x (g_super g))) by intuition.
+    destruct Hx' as [->|Hx']; [exact Hc | now apply F].
+  - intros x Hx. destruct (INB _ Hx) as (H1 & H2 & H3). rewrite Hkacc. repeat split; auto.
+    intros [H| ->]; [contradiction|]. apply H1. eapply lookup_in_keys. exact Hatc.
+  - intros x Hx. rewrite Howed', Hkacc. destruct (D _ Hx) as [H1 H2]. split; [tauto|].
+    intros [H| ->]; contradiction.
+  - assumption.
+  - rewrite Ha. now apply nodup_keys_snoc.
+  - intros x Hx. rewrite Howed'. rewrite Hkacc in Hx. intros [H Hne]. destruct Hx as [Hx| ->]; [|congruence].
+    exact (AS _ Hx H).
+  - intros x q Hx. rewrite Howed', Hkacc. destruct (x =? c) eqn:E.
+    + do 4 right. right. lia.
+    + destruct (AC _ _ Hx) as [H|[H|[H|[H|H]]]]; auto.
+      * left. split; [assumption | lia].
+      * do 4 right. now left.
+  - intros x q Hx Hat. destruct (SU _ _ Hx Hat) as [H|(c' & b' & H)]; [now left|].
+    right. exists c', b'. rewrite Ha. now apply lookup_snoc_some.
+Qed.
+
+Lemma established_own_record s c :
+  dial_record s = Some c -> s <> Opening c ->
+  snd (st_on_established s c) = true /\ dial_record (fst (st_on_established s c)) = None /\
+  (forall d, s <> Opening d).
+Proof.
+  destruct s as [r [[e|e]|]|o|o|[o|]]; cbn [dial_record]; try discriminate; intros [= ->] Hne;
+    cbn [st_on_established]; try (assert (c =? c = true) as -> by lia); cbn [fst snd dial_record];
+    try (repeat split; discriminate). congruence.
+Qed.
+
+Lemma nondefault_exists m p : state_of m p <> Disconnected None ->
+  existsb (fun kp : N * pstate => fst kp =? p) (peers m) = true.
+Proof.
+  unfold state_of. induction (peers m) as [|[k v] t IH]; cbn [lookup existsb fst]; [congruence|].
+  destruct (k =? p); [reflexivity|]. cbn [orb]. exact IH.
+Qed.
+
+Lemma mem_single c : mem c [c] = true.
+Proof. unfold mem. cbn [existsb]. assert (c =? c = true) as -> by lia. reflexivity. Qed.
+
+Lemma linv_established_dialer L m g p c :
+  LInv m g -> In c (g_neg g) -> lookup c (g_att g) = Some p ->
+  LInv (fst (do_established L m p c false false))
+       (gstep (TrEstablished p c false false) (snd (do_established L m p c false false)) g).
+Proof.
+  intros I Hin Hat. destruct (owed_neg_facts _ _ _ _ I Hin Hat) as (Hp & Hd & Hno).
+  assert (Hnotopen : ~ In c (g_open g)).
+  { destruct I as [_ _ _ ON _ _ _ _ _ _ _ _]. intros H. exact (ON _ H Hin). }
+  unfold do_established. cbn [set_known pending]. rewrite Hp.
+  assert (p =? p = true) as -> by lia.
+  unfold do_established_checked. rewrite so_pending, so_known.
+  cbn [set_pending set_known outs ins].
+  destruct (limit_reached (max_out L) (outs m)).
+  - (* rejected by the limit: the attempt ends without report (known finding), the record is cleared *)
+    rewrite nondefault_exists.
+    2:{ rewrite so_pending, so_known. intros E. rewrite E in Hd. discriminate. }
+    cbn [fst snd]. unfold gstep.
+    cbn [flat_map app out_open out_dialneg out_cancel out_reject out_term out_rep]. rewrite mem_single.
+    rewrite removes_nil. rewrite <- (removes_notin c (g_open g) Hnotopen) at 1.
+    apply (linv_conclude m g c p (st_on_dial_failure (state_of m p) c) false); auto.
+    + intros q. rewrite state_of_set_state, so_pending, so_known. reflexivity.
+    + now apply dial_record_on_failure.
+  - destruct (established_own_record _ _ Hd Hno) as (Hacc & Hrec & Hnop).
+    destruct (st_on_established (state_of m p) c) as [s' acc] eqn:Est. cbn [fst snd] in Hacc, Hrec. subst acc.
+    cbn [negb].
+    assert (Hprev : forall (A : Type) (x : mgr -> conn -> A) (y : A),
+               match state_of m p with Opening d => x m d | _ => y end = y).
+    { intros A x y. destruct (state_of m p); try reflexivity. exfalso. eapply Hnop. reflexivity. }
+    destruct (state_of m p) as [r sc|o|o|o] eqn:Es; try (exfalso; eapply Hnop; reflexivity);
+      cbn [fst snd app]; unfold gstep;
+      cbn [flat_map app out_open out_dialneg out_cancel out_reject out_term out_rep mem existsb];
+      rewrite removes_nil; rewrite <- (removes_notin c (g_open g) Hnotopen) at 1;
+      (apply (linv_conclude_acc m g c p s' false); auto;
+       [ intros q; rewrite so_accepting, so_limits, state_of_set_state, so_pending, so_known; reflexivity ]).
+Qed.
+
+Definition with_inb (g : ghost) (i : list conn) : ghost :=
+  mkG (g_open g) (g_neg g) (g_att g) (g_done g) (g_super g) (g_limrej g) i (g_rep g).
+
+Lemma inb_facts m g c : LInv m g -> In c (g_inb g) ->
+  ~ owed g c /\ lookup c (pending m) = None /\ ~ In c (keys (accepting m)) /\ ~ In c (g_done g) /\
+  ~ In c (keys (g_att g)) /\ c < next_conn m.
+Proof.
+  intros [P O R ON F INB D DN AN AS AC SU] Hin. destruct (INB _ Hin) as (H1 & H2 & H3).
+  assert (Hno : ~ owed g c).
+  { intros Ho. destruct (O _ Ho) as [q Hq]. destruct (P _ _ Hq) as (_ & Hat & _). apply H1.
+    eapply lookup_in_keys. exact Hat. }
+  assert (Hpn : lookup c (pending m) = None).
+  { destruct (lookup c (pending m)) as [q|] eqn:E; [|reflexivity].
+    exfalso. destruct (P _ _ E) as (Ho & _). contradiction. }
+  assert (Hlt : c < next_conn m) by (apply F; intuition).
+  repeat split; assumption.
+Qed.
+
+(* dropping an unused inbound id (the connection was rejected) *)
+Lemma linv_inb_drop m g c m' :
+  LInv m g -> pending m' = pending m -> (forall q, state_of m' q = state_of m q) ->
+  accepting m' = accepting m -> next_conn m' = next_conn m ->
+  LInv m' (with_inb g (removes [c] (g_inb g))).
+Proof.
+  intros [P O R ON F INB D DN AN AS AC SU] Hp Hs Ha Hn. unfold with_inb.
+  split; cbn [g_open g_neg g_att g_done g_super g_limrej g_inb g_rep]; rewrite ?Hp, ?Ha, ?Hn; try assumption.
+  - intros x q Hx. rewrite Hs. exact (P _ _ Hx).
+  - intros q x Hx. rewrite Hs in Hx. auto.
+  - intros x Hx. apply F. unfold owed in *. cbn [g_open g_neg] in Hx. rewrite in_removes1 in Hx. intuition.
+  - intros x Hx. rewrite in_removes1 in Hx. destruct Hx as [Hx _]. auto.
+Qed.
+
+(* accepting an inbound connection c for p whose peer state keeps its dial record *)
+Lemma linv_inb_accept m g c p m' :
+  LInv m g -> In c (g_inb g) ->
+  pending m' = pending m -> (forall q, state_of m' q = state_of m q) ->
+  accepting m' = accepting m ++ [(c, (p, true))] -> next_conn m' = next_conn m ->
+  LInv m' (with_inb g (removes [c] (g_inb g))).
+Proof.
+  intros I Hin Hp Hs Ha Hn. destruct (inb_facts _ _ _ I Hin) as (Hno & Hpc & Hac & Hdc & Hatc & Hlt).
+  destruct I as [P O R ON F INB D DN AN AS AC SU]. unfold with_inb.
+  assert (Hkacc : forall x, In x (keys (accepting m')) <-> In x (keys (accepting m)) \/ x = c).
+  { intros x. rewrite Ha, keys_app_in. cbn [keys map fst In]. intuition. }
+  split; cbn [g_open g_neg g_att g_done g_super g_limrej g_inb g_rep]; rewrite ?Hp, ?Hn; try assumption.
+  - intros x q Hx. rewrite Hs. exact (P _ _ Hx).
+  - intros q x Hx. rewrite Hs in Hx. auto.
+  - intros x Hx. unfold owed in Hx. cbn [g_open g_neg] in Hx. rewrite in_removes1, Hkacc in Hx.
+    assert (Hx' : x = c \/ (owed g x \/ In x (keys (g_att g)) \/ In x (g_inb g) \/ In x (g_done g) \/
+                             In x (keys (accepting m)) \/ In x (g_super g))) by (unfold owed; intuition).
+    destruct Hx' as [->|Hx']; [exact Hlt | now apply F].
+  - intros x Hx. rewrite in_removes1 in Hx. destruct Hx as [Hx Hne]. destruct (INB _ Hx) as (H1 & H2 & H3).
+    rewrite Hkacc. repeat split; auto. intros [H|H]; contradiction.
+  - intros x Hx. destruct (D _ Hx) as [H1 H2]. split; [exact H1|]. rewrite Hkacc.
+    intros [H| ->]; contradiction.
+  - rewrite Ha. now apply nodup_keys_snoc.
+  - intros x Hx. rewrite Hkacc in Hx. destruct Hx as [Hx| ->]; [exact (AS _ Hx) | exact Hno].
+  - intros x q Hx. rewrite Hkacc. destruct (AC _ _ Hx) as [H|[H|[H|[H|H]]]]; auto. do 4 right. now left.
+  - intros x q Hx Hat. destruct (SU _ _ Hx Hat) as [H|(c' & b' & H)]; [now left|].
+    right. exists c', b'. rewrite Ha. now apply lookup_snoc_some.
+Qed.
+
+(* an opening attempt d of peer p is superseded: an accept future for a connection with p exists *)
+Lemma linv_conclude_super m g d p st' m' :
+  LInv m g -> lookup d (pending m) = Some p ->
+  (exists c' b, lookup c' (accepting m) = Some (p, b)) ->
+  pending m' = remove_key d (pending m) ->
+  (forall q, state_of m' q = if q =? p then st' else state_of m q) -> dial_record st' = None ->
+  accepting m' = accepting m -> next_conn m' = next_conn m ->
+  LInv m' (mkG (removes [d] (g_open g)) (removes [d] (g_neg g)) (g_att g) (g_done g) (d :: g_super g)
+               (g_limrej g) (g_inb g) (g_rep g)).
+Proof.
+  intros [P O R ON F INB D DN AN AS AC SU] Hl Hwit Hp Hs Hst Ha Hn.
+  destruct (P _ _ Hl) as (Hoc & Hatc & Hdc & Hiffc).
+  assert (Howed' : forall x, owed (mkG (removes [d] (g_open g)) (removes [d] (g_neg g)) (g_att g)
+               (g_done g) (d :: g_super g) (g_limrej g) (g_inb g) (g_rep g)) x <-> owed g x /\ x <> d).
+  { intros x. unfold owed. cbn [g_open g_neg]. rewrite !in_removes1. tauto. }
+  assert (Hother : forall x q, x <> d -> lookup x (pending m) = Some q -> q <> p).
+  { intros x q Hne Hx ->. destruct (P _ _ Hx) as (_ & _ & Hdx & _). congruence. }
+  split; cbn [g_att g_done g_super g_limrej g_inb g_rep]; rewrite ?Hp, ?Ha, ?Hn.
+  - intros x q Hx. rewrite lookup_remove_key in Hx. destruct (x =? d) eqn:E; [discriminate|].
+    assert (Hne : x <> d) by lia. destruct (P _ _ Hx) as (Ho & Hat & Hd & Hiff).
+    rewrite Howed', Hs. assert (q =? p = false) as -> by (pose proof (Hother _ _ Hne Hx); lia).
+    repeat split; auto.
+    + cbn [g_open]. rewrite in_removes1. intros [Hin _]. now apply Hiff.
+    + intros Hop. cbn [g_open]. rewrite in_removes1. split; [now apply Hiff | assumption].
+  - intros x Hx. apply Howed' in Hx. destruct Hx as [Hx Hne]. destruct (O _ Hx) as [q Hq].
+    exists q. rewrite lookup_remove_key. assert (x =? d = false) as -> by lia. exact Hq.
+  - intros q x Hd. rewrite Hs in Hd. destruct (q =? p) eqn:E; [congruence|].
+    specialize (R _ _ Hd). rewrite lookup_remove_key. destruct (x =? d) eqn:E2; [|exact R].
+    assert (x = d) by lia. subst x. rewrite Hl in R. injection R as ->. lia.
+  - cbn [g_open g_neg]. intros x Hx. rewrite in_removes1 in *. intros [Hn2 _]. destruct Hx as [Hx _].
+    exact (ON _ Hx Hn2).
+  - intros x Hx. rewrite Howed' in Hx. cbn [In] in Hx.
+    assert (Hc : d < next_conn m) by (apply F; now left).
+    assert (Hx' : x = d \/ (owed g x \/ In x (keys (g_att g)) \/ In x (g_inb g) \/ In x (g_done g) \/
+                             In x (keys (accepting m)) \/ In x (g_super g))) by intuition.
+    destruct Hx' as [->|Hx']; [exact Hc | now apply F].
+  - exact INB.
+  - intros x Hx. rewrite Howed'. destruct (D _ Hx) as [H1 H2]. split; [tauto | assumption].
+  - assumption.
+  - assumption.
+  - intros x Hx. rewrite Howed'. intros [H _]. exact (AS _ Hx H).
+  - intros x q Hx. rewrite Howed'. cbn [In]. destruct (x =? d) eqn:E.
+    + do 2 right. left. left. lia.
+    + destruct (AC _ _ Hx) as [H|[H|[H|[H|H]]]]; auto.
+      left. split; [assumption | lia].
+  - intros x q Hx Hat. cbn [In] in Hx. destruct Hx as [<-|Hx]; [|eauto].
+    right. assert (q = p) by congruence. subst q. exact Hwit.
+Qed.
+
+Lemma no_record_is_inb m g c p : LInv m g -> In c (g_inb g) -> st_on_dial_failure (state_of m p) c = state_of m p.
+Proof.
+  intros I Hin. destruct (inb_facts _ _ _ I Hin) as (_ & _ & _ & _ & Hatc & _).
+  destruct I as [P O R ON F INB D DN AN AS AC SU].
+  destruct (dial_record (state_of m p)) as [d|] eqn:Ed.
+  - apply (dial_record_on_failure_other _ _ d Ed). intros ->.
+    specialize (R _ _ Ed). destruct (P _ _ R) as (_ & Hat & _). apply Hatc. eapply lookup_in_keys. exact Hat.
+  - now apply dial_record_on_failure_none.
+Qed.
+
+Lemma linv_established_listener L m g p c :
+  LInv m g -> In c (g_inb g) ->
+  LInv (fst (do_established L m p c true false))
+       (gstep (TrEstablished p c true false) (snd (do_established L m p c true false)) g).
+Proof.
+  intros I Hin. destruct (inb_facts _ _ _ I Hin) as (Hno & Hpc & Hac & Hdc & Hatc & Hlt).
+  pose proof (no_record_is_inb m g c p I Hin) as Hsame.
+  unfold do_established. rewrite Hpc, (remove_key_notin c (pending m) Hpc).
+  unfold do_established_checked. cbn [set_pending ins outs]. rewrite so_pending.
+  destruct (limit_reached (max_in L) (ins m)).
+  { (* rejected by the inbound limit: nothing changes but the id is used up *)
+    rewrite Hsame.
+    destruct (existsb _ _); cbn [fst snd]; unfold gstep;
+      cbn [flat_map app out_open out_dialneg out_cancel out_reject out_term out_rep]; rewrite !removes_nil;
+      apply (linv_inb_drop m g c); auto; intros q.
+    rewrite state_of_set_state, so_pending. destruct (q =? p) eqn:E; [|reflexivity].
+    assert (q = p) by lia. now subst q. }
+  destruct (state_of m p) as [r [[e|e]|]|d|d|[d|]] eqn:Es; cbn [st_on_established negb].
+  - (* already two connections: rejected *)
+    cbn [fst snd]. unfold gstep. cbn [flat_map app out_open out_dialneg out_cancel out_reject out_term out_rep].
+    rewrite !removes_nil. apply (linv_inb_drop m g c); auto.
+  - (* connected with an own dial in flight: the record is another id, rejected *)
+    assert (e =? c = false) as ->.
+    { destruct (e =? c) eqn:E; [|reflexivity]. exfalso. assert (e = c) by lia. subst e.
+      destruct I as [P O R ON F INB D DN AN AS AC SU].
+      assert (Hr : dial_record (state_of m p) = Some c) by (rewrite Es; reflexivity).
+      specialize (R _ _ Hr). congruence. }
+    cbn [negb fst snd]. unfold gstep. cbn [flat_map app out_open out_dialneg out_cancel out_reject out_term out_rep].
+    rewrite !removes_nil. apply (linv_inb_drop m g c); auto.
+  - (* connected, room for a secondary *)
+    cbn [fst snd app]. unfold gstep. cbn [flat_map app out_open out_dialneg out_cancel out_reject out_term out_rep].
+    rewrite !removes_nil.
+    apply (linv_inb_accept (set_state m p (Connected r (Some (SecEst c)))) g c p); auto.
+    + apply (linv_same_record m g p (Connected r (Some (SecEst c)))); auto.
+      * intros q. now rewrite state_of_set_state.
+      * now rewrite Es.
+      * intros x. rewrite Es. split; discriminate.
+  - (* Opening d: the inbound connection wins, the open is cancelled *)
+    cbn [fst snd app]. unfold gstep. cbn [flat_map app out_open out_dialneg out_cancel out_reject out_term out_rep].
+    rewrite !removes_nil.
+    assert (Hrec : dial_record (state_of m p) = Some d) by (rewrite Es; reflexivity).
+    assert (Hpd : lookup d (pending m) = Some p) by (destruct I as [_ _ R _ _ _ _ _ _ _ _ _]; auto).
+    assert (Hdo : In d (g_open g)).
+    { destruct I as [P _ _ _ _ _ _ _ _ _ _ _]. destruct (P _ _ Hpd) as (_ & _ & _ & Hiff). now apply Hiff. }
+    assert (Hdn : ~ In d (g_neg g)) by (destruct I as [_ _ _ ON _ _ _ _ _ _ _ _]; now apply ON).
+    rewrite <- (removes_notin d (g_neg g) Hdn).
+    set (ma := set_accepting m (accepting m ++ [(c, (p, true))])).
+    assert (Ia : LInv ma (with_inb g (removes [c] (g_inb g)))).
+    { apply (linv_inb_accept m g c p); auto. }
+    apply (linv_conclude_super ma (with_inb g (removes [c] (g_inb g))) d p (Connected c None)); auto.
+    + exists c, true. cbn [ma set_accepting accepting]. rewrite lookup_app_last.
+      destruct (lookup c (accepting m)) as [v|] eqn:El.
+      * exfalso. apply Hac. eapply lookup_in_keys. exact El.
+      * assert (c =? c = true) as -> by lia. reflexivity.
+    + intros q. rewrite so_accepting, so_pending, so_limits, state_of_set_state, so_pending. reflexivity.
+  - (* Dialing d: the inbound connection becomes primary, the dial record is kept *)
+    assert (d =? c = false) as ->.
+    { destruct (d =? c) eqn:E; [|reflexivity]. exfalso. assert (d = c) by lia. subst d.
+      destruct I as [P O R ON F INB D DN AN AS AC SU].
+      assert (Hr : dial_record (state_of m p) = Some c) by (rewrite Es; reflexivity).
+      specialize (R _ _ Hr). congruence. }
+    cbn [fst snd app]. unfold gstep. cbn [flat_map app out_open out_dialneg out_cancel out_reject out_term out_rep].
+    rewrite !removes_nil.
+    apply (linv_inb_accept (set_state m p (Connected c (Some (SecDial d)))) g c p); auto.
+    + apply (linv_same_record m g p (Connected c (Some (SecDial d)))); auto.
+      * intros q. now rewrite state_of_set_state.
+      * now rewrite Es.
+      * intros x. rewrite Es. split; discriminate.
+  - (* Disconnected with a dial record *)
+    assert (d =? c = false) as ->.
+    { destruct (d =? c) eqn:E; [|reflexivity]. exfalso. assert (d = c) by lia. subst d.
+      destruct I as [P O R ON F INB D DN AN AS AC SU].
+      assert (Hr : dial_record (state_of m p) = Some c) by (rewrite Es; reflexivity).
+      specialize (R _ _ Hr). congruence. }
+    cbn [fst snd app]. unfold gstep. cbn [flat_map app out_open out_dialneg out_cancel out_reject out_term out_rep].
+    rewrite !removes_nil.
+    apply (linv_inb_accept (set_state m p (Connected c (Some (SecDial d)))) g c p); auto.
+    + apply (linv_same_record m g p (Connected c (Some (SecDial d)))); auto.
+      * intros q. now rewrite state_of_set_state.
+      * now rewrite Es.
+      * intros x. rewrite Es. split; discriminate.
+  - (* fully disconnected *)
+    cbn [fst snd app]. unfold gstep. cbn [flat_map app out_open out_dialneg out_cancel out_reject out_term out_rep].
+    rewrite !removes_nil.
+    apply (linv_inb_accept (set_state m p (Connected c None)) g c p); auto.
+    + apply (linv_same_record m g p (Connected c None)); auto.
+      * intros q. now rewrite state_of_set_state.
+      * now rewrite Es.
+      * intros x. rewrite Es. split; discriminate.
+Qed.
